@@ -104,6 +104,39 @@ def step? : List String → Option String
       let c := if ini = 1 then Htj2k.encodeInitialUVLC u0 u1 else Htj2k.encodeNonInitialUVLC u0 u1
       s!"ok {c.1} {c.2}"
     | _ => "bad-op"
+  | ["htj2k-pkthdr", pat, b0, b1, b2] =>
+    some <| match parseBits b0, parseBits b1, parseBits b2 with
+    | some b0, some b1, some b2 =>
+      let mk := fun (c : Char) (b : List Bool) =>
+        if c = '0' then Htj2k.HtBand.absent else if c = '1' then Htj2k.HtBand.empty else Htj2k.HtBand.coded b
+      match pat.toList with
+      | [c0, c1, c2] => "ok " ++ bitsToStr (Htj2k.padToByte (Htj2k.encodeHtBands [mk c0 b0, mk c1 b1, mk c2 b2]))
+      | _ => "bad-op"
+    | _, _, _ => "bad-op"
+  | ["htj2k-uqcheck", later, ke, kd, v] =>
+    some <| match nats? [later, ke, kd], v.toInt? with
+    | some [later, ke, kd], some v =>
+      let e := Htj2k.sampleEQ ke (Htj2k.toSignMag ke v)
+      let uq : Int := if later = 0 then (Htj2k.uqInitial e : Nat) else Htj2k.uqLater e false 0 0
+      if Htj2k.uqAccepted uq (kd - 1) then "ok" else "err"
+    | _, _ => "bad-op"
+  | ["ms-dec", hx, ns] =>
+    some <| match parseInts ns with
+    | some ns =>
+      let rec go (r : Htj2k.MsReader) : List Nat → List String
+        | [] => []
+        | n :: rest => let x := r.readBits n; s!"{x.1}:{if x.2.1 then 1 else 0}" :: go x.2.2 rest
+      "ok " ++ ",".intercalate (go { rest := hexToBytes hx } (ns.map Int.toNat))
+    | none => "bad-op"
+  | ["ms-enc", ws] =>
+    some <| match parseInts ws with
+    | some l =>
+      let rec pairs : List Int → List (Nat × Nat)
+        | a :: b :: rest => (a.toNat, b.toNat) :: pairs rest
+        | _ => []
+      let m := (({} : Htj2k.MsWriter).encodeAll (pairs l))
+      s!"ok {bytesToHex m.buf} {bytesToHex m.terminate}"
+    | none => "bad-op"
   | ["htj2k-signmag", kmax, v] =>
     some <| match kmax.toNat?, v.toInt? with
     | some k, some v => s!"ok {Htj2k.fromSignMag k (Htj2k.toSignMag k v)}"
